@@ -82,10 +82,11 @@ def plainIPv6 (s : Str) : Bool :=
      | some a, some b => a + b ≤ 7 && !(l.getLast? = some 46 || (l.any (· = 46)))
      | _, _ => false)
 
-def plainIP (s : Str) : Bool := plainIPv4 s || plainIPv6 s
-
 /-- the characters a plain address is made of -/
 def isIpChar (c : Nat) : Bool := isHexDigit c || c = 46 || c = 58
+
+/-- plain address text: hex digits, dots and colons in one of the shapes above -/
+def plainIP (s : Str) : Bool := s.all isIpChar && (plainIPv4 s || plainIPv6 s)
 
 def isUncaught {α} : Except Err α → Bool
   | .error (.uncaught _) => true
